@@ -273,6 +273,23 @@ Section C04.
 
   Lemma bf_fresh_rel t t' : skrel (BFNode XQ) bfnode_rel t t' -> trelk (bfk_fresh t) (bfk_fresh t').
   Proof. intros H. unfold bfk_fresh. apply fresh_rel; [exact rel_f_zero_lay|exact H]. Qed.
+  (* fresh trees, the input scaled functionally: the run on the scaled tree succeeds iff the original does, and the root output and EVERY
+     node's stored unrounded layout are the original ones with every length multiplied by k *)
+  Theorem bf_engine_scaled_layouts f (t t' : sk (BFNode XQ)) i o t1 :
+    skrel (BFNode XQ) bfnode_rel t t' ->
+    bf_memo_t (Fin k) f (bfk_fresh t') (fin_scale k i) = bf_memo f (bfk_fresh t') (fin_scale k i) ->
+    bf_memo f (bfk_fresh t) i = Some (o, t1) ->
+    exists o' t1',
+      bf_memo f (bfk_fresh t') (fin_scale k i) = Some (o', t1') /\ output_rel k o o' /\
+      Forall2 (flay_rel k) (lays (BFNode XQ) (FIn XQ) (LayoutOutput XQ) (FLay XQ) t1) (lays (BFNode XQ) (FIn XQ) (LayoutOutput XQ) (FLay XQ) t1').
+  Proof.
+    intros Hsk Eins E.
+    pose proof (bf_engine_partial f (bfk_fresh t) (bfk_fresh t') i (fin_scale k i) (bf_fresh_rel _ _ Hsk) (fin_rel_scale k i) Eins) as H.
+    rewrite E in H. unfold oprel in H.
+    destruct (bf_memo f (bfk_fresh t') (fin_scale k i)) as [[o' t1']|]; [|contradiction].
+    destruct H as [Ho Ht1]. cbn [fst snd] in Ho, Ht1. exists o', t1'. split; [reflexivity|]. split; [exact Ho|].
+    apply (trel_lays (BFNode XQ) (FIn XQ) (LayoutOutput XQ) (FLay XQ) bfnode_rel (fin_rel k) (output_rel k) (flay_rel k)). exact Ht1.
+  Qed.
 End C04.
 
 (* ------------------------------------------------------------------------------------------------ C12 *)
